@@ -204,97 +204,45 @@ __CPROVER_ensures(subx == ghost_k ==> __CPROVER_return_value == self->g_sub);
    (state_harness.h: h_ce_isUpToDate, h_ce_markAsUpToDate, h_ce_invalidate), together with Lemma L-valid. */
 
 /* =====================================================================================
-   StateImpl
+   StateImpl (contracts are stated and checked in the plain world, state_harness.h)
    ===================================================================================== */
 #define VV_OK(v) (1 <= (v) && (v) < VER_MAX)     /* value versions: same overflow assumption */
-#define SYS_VERS(self) __CPROVER_object_upto((self)->systemStageVersions, sizeof((self)->systemStageVersions))
 #define SYS_WF(self) (STAGE_OK((self)->currentSystemStage) && vers_ok((self)->systemStageVersions) && \
                       VV_OK((self)->qVersion) && VV_OK((self)->uVersion) && VV_OK((self)->zVersion) && 0 <= (self)->subsystems_size)
-#define SYS_ASSIGNS(self) (self)->currentSystemStage, SYS_VERS(self), (self)->qVersion, (self)->uVersion, (self)->zVersion, (self)->t
-#define SUB_ASSIGNS(s) (s)->currentStage, SUB_VERS(s), (s)->cacheInfo_size, (s)->discreteInfo_size
 #define SAME_REAL(a, b) ((a) == (b) || (__CPROVER_isnand(a) && __CPROVER_isnand(b)))
 
-/* value versions */
-void noteQChange(struct StateImpl* self)
-__CPROVER_requires(__CPROVER_is_fresh(self, sizeof(*self)) && VV_OK(self->qVersion))
-__CPROVER_assigns(self->qVersion)
-__CPROVER_ensures(self->qVersion == __CPROVER_old(self->qVersion) + 1);
-void noteUChange(struct StateImpl* self)
-__CPROVER_requires(__CPROVER_is_fresh(self, sizeof(*self)) && VV_OK(self->uVersion))
-__CPROVER_assigns(self->uVersion)
-__CPROVER_ensures(self->uVersion == __CPROVER_old(self->uVersion) + 1);
-void noteZChange(struct StateImpl* self)
-__CPROVER_requires(__CPROVER_is_fresh(self, sizeof(*self)) && VV_OK(self->zVersion))
-__CPROVER_assigns(self->zVersion)
-__CPROVER_ensures(self->zVersion == __CPROVER_old(self->zVersion) + 1);
-void noteYChange(struct StateImpl* self)
-__CPROVER_requires(__CPROVER_is_fresh(self, sizeof(*self)) && VV_OK(self->qVersion) && VV_OK(self->uVersion) && VV_OK(self->zVersion))
-__CPROVER_assigns(self->qVersion, self->uVersion, self->zVersion)
-__CPROVER_ensures(self->qVersion == __CPROVER_old(self->qVersion) + 1 && self->uVersion == __CPROVER_old(self->uVersion) + 1 && self->zVersion == __CPROVER_old(self->zVersion) + 1);
+/* ---- loop contract of the loop over ALL subsystems in invalidateAll / invalidateAllCacheAtOrAbove ----
+   (symbolic subsystem count; ghost subsystem index ghost_k; the real `for` is put into base/havoc/step form
+   by the extractor, rule loop_to_induction)
+   invariant:  0 <= i <= size;
+               i <= ghost_k: the ghost subsystem is exactly as at loop entry (and well formed);
+               i >  ghost_k: the ghost subsystem has been invalidated as specified for stage g
+   assigns:    i, the view of the ghost subsystem (other subsystems are other objects)
+   decreases:  size - i                                                                              */
+#define SUB_INVALIDATED_REL(n, o, g) ( \
+   (n)->currentStage == MINI((o)->currentStage, (g) - 1) && \
+   (((g) > Stage_Topology || (o)->currentStage == Stage_Empty) ==> \
+       (n)->stageVersions[ghost_j] == (o)->stageVersions[ghost_j] + (((g) <= ghost_j && ghost_j <= (o)->currentStage) ? 1 : 0)) && \
+   (((g) == Stage_Topology && (o)->currentStage > Stage_Empty) ==> \
+       ((n)->stageVersions[ghost_j] == 1 && (n)->cacheInfo_size == 0 && (n)->discreteInfo_size == 0)) && \
+   0 <= (n)->cacheInfo_size && (n)->cacheInfo_size <= (o)->cacheInfo_size && \
+   0 <= (n)->discreteInfo_size && (n)->discreteInfo_size <= (o)->discreteInfo_size)
+#define SUB_SAME_VIEW(n, o) ((n)->currentStage == (o)->currentStage && (n)->stageVersions[ghost_j] == (o)->stageVersions[ghost_j] && \
+   (n)->cacheInfo_size == (o)->cacheInfo_size && (n)->discreteInfo_size == (o)->discreteInfo_size)
+#define LOOPINV_INVALIDATE_ALL(self, g, le) ( \
+   0 <= i && i <= (self)->subsystems_size && \
+   (i <= ghost_k ==> (SUB_WF((self)->g_sub) && 0 <= (self)->g_sub->cacheInfo_size && 0 <= (self)->g_sub->discreteInfo_size && SUB_SAME_VIEW((self)->g_sub, le))) && \
+   (i >  ghost_k ==> SUB_INVALIDATED_REL((self)->g_sub, le, g)))
 
-/* the system part of "invalidate stage g" (property statement, first sentence, for the system):
-     system stage' == min(system stage, g-1); exactly the versions of the invalidated stages g..stage are bumped;
-     if Model stage is invalidated the continuous variables are de-allocated -> q,u,z VALUE versions change;
-     if Topology is invalidated time is reset to NaN; nothing else changes */
-#define ENSURES_SYS_INVALIDATED(self, g) \
-  __CPROVER_ensures((self)->currentSystemStage == MINI(__CPROVER_old((self)->currentSystemStage), (g) - 1)) \
-  __CPROVER_ensures((self)->systemStageVersions[ghost_j] == __CPROVER_old((self)->systemStageVersions[ghost_j]) + (((g) <= ghost_j && ghost_j <= __CPROVER_old((self)->currentSystemStage)) ? 1 : 0)) \
-  __CPROVER_ensures((self)->qVersion == __CPROVER_old((self)->qVersion) + ((__CPROVER_old((self)->currentSystemStage) >= Stage_Model && Stage_Model >= (g)) ? 1 : 0)) \
-  __CPROVER_ensures((self)->uVersion == __CPROVER_old((self)->uVersion) + ((__CPROVER_old((self)->currentSystemStage) >= Stage_Model && Stage_Model >= (g)) ? 1 : 0)) \
-  __CPROVER_ensures((self)->zVersion == __CPROVER_old((self)->zVersion) + ((__CPROVER_old((self)->currentSystemStage) >= Stage_Model && Stage_Model >= (g)) ? 1 : 0)) \
-  __CPROVER_ensures((__CPROVER_old((self)->currentSystemStage) >= Stage_Topology && Stage_Topology >= (g)) ? __CPROVER_isnand((self)->t) : SAME_REAL((self)->t, __CPROVER_old((self)->t)))
-
-/* the per-subsystem part, for the GHOST subsystem (arbitrary => every subsystem):
-     stage' == min(stage, g-1); exactly the versions g..stage bumped (g == Topology: just-constructed condition) */
-#define ENSURES_SUB_INVALIDATED(s, g) \
-  __CPROVER_ensures((s)->currentStage == MINI(__CPROVER_old((s)->currentStage), (g) - 1)) \
-  __CPROVER_ensures(((g) > Stage_Topology || __CPROVER_old((s)->currentStage) == Stage_Empty) ==> \
-     (s)->stageVersions[ghost_j] == __CPROVER_old((s)->stageVersions[ghost_j]) + (((g) <= ghost_j && ghost_j <= __CPROVER_old((s)->currentStage)) ? 1 : 0)) \
-  __CPROVER_ensures(((g) == Stage_Topology && __CPROVER_old((s)->currentStage) > Stage_Empty) ==> \
-     ((s)->stageVersions[ghost_j] == 1 && (s)->cacheInfo_size == 0 && (s)->discreteInfo_size == 0)) \
-  __CPROVER_ensures(0 <= (s)->cacheInfo_size && (s)->cacheInfo_size <= __CPROVER_old((s)->cacheInfo_size)) \
-  __CPROVER_ensures(0 <= (s)->discreteInfo_size && (s)->discreteInfo_size <= __CPROVER_old((s)->discreteInfo_size))
-
-void invalidateJustSystemStage(struct StateImpl* self, Stage stg)
-__CPROVER_requires(__CPROVER_is_fresh(self, sizeof(*self)) && SYS_WF(self) && STAGE_OK(stg) && stg > Stage_Empty && GHOST_J_OK)
-__CPROVER_assigns(SYS_ASSIGNS(self))
-ENSURES_SYS_INVALIDATED(self, stg);
-
-/* a state whose ghost subsystem is in the view */
-#define ST_K(self) (__CPROVER_is_fresh(self, sizeof(struct StateImpl)) && 0 <= ghost_k && ghost_k < (self)->subsystems_size && \
-   __CPROVER_is_fresh((self)->g_sub, sizeof(struct PerSubsystemInfo)) && SYS_WF(self) && SUB_WF((self)->g_sub) && \
-   0 <= (self)->g_sub->cacheInfo_size && 0 <= (self)->g_sub->discreteInfo_size && GHOST_J_OK)
-
-/* loop over all subsystems (symbolic count): invariant for the ghost subsystem index ghost_k --
-   not yet visited: exactly as at loop entry; visited: invalidated as specified */
-#define LE(x) __CPROVER_loop_entry(x)
-#define LOOP_CONTRACT_INVALIDATE_ALL(self, g) \
-  __CPROVER_assigns(i, SUB_ASSIGNS((self)->g_sub)) \
-  __CPROVER_loop_invariant(0 <= i && i <= (self)->subsystems_size && 0 <= (self)->g_sub->cacheInfo_size && 0 <= (self)->g_sub->discreteInfo_size) \
-  __CPROVER_loop_invariant(i <= ghost_k ==> (SUB_WF_NOCALL((self)->g_sub) && (self)->g_sub->currentStage == LE((self)->g_sub->currentStage) && \
-        (self)->g_sub->stageVersions[ghost_j] == LE((self)->g_sub->stageVersions[ghost_j]) && \
-        (self)->g_sub->cacheInfo_size == LE((self)->g_sub->cacheInfo_size) && (self)->g_sub->discreteInfo_size == LE((self)->g_sub->discreteInfo_size))) \
-  __CPROVER_loop_invariant(i > ghost_k ==> ((self)->g_sub->currentStage == MINI(LE((self)->g_sub->currentStage), (g) - 1) && \
-        (((g) > Stage_Topology || LE((self)->g_sub->currentStage) == Stage_Empty) ==> \
-            (self)->g_sub->stageVersions[ghost_j] == LE((self)->g_sub->stageVersions[ghost_j]) + (((g) <= ghost_j && ghost_j <= LE((self)->g_sub->currentStage)) ? 1 : 0)) && \
-        (((g) == Stage_Topology && LE((self)->g_sub->currentStage) > Stage_Empty) ==> \
-            ((self)->g_sub->stageVersions[ghost_j] == 1 && (self)->g_sub->cacheInfo_size == 0 && (self)->g_sub->discreteInfo_size == 0)) && \
-        (self)->g_sub->cacheInfo_size <= LE((self)->g_sub->cacheInfo_size) && (self)->g_sub->discreteInfo_size <= LE((self)->g_sub->discreteInfo_size))) \
-  __CPROVER_decreases((self)->subsystems_size - i)
-
-/* invalidateAll(g): THE PROPERTY'S FIRST SENTENCE: "changing a variable lowers the realized stage of the system and of
-   every subsystem to just below the stage that variable invalidates" and bumps exactly the versions of the
-   invalidated stages; nothing else changes (assigns clause) */
-void invalidateAll(struct StateImpl* self, Stage g)
-__CPROVER_requires(ST_K(self) && STAGE_OK(g) && g > Stage_Empty)
-__CPROVER_assigns(SYS_ASSIGNS(self), SUB_ASSIGNS(self->g_sub))
-ENSURES_SYS_INVALIDATED(self, g)
-ENSURES_SUB_INVALIDATED(self->g_sub, g);
-
-/* invalidateAllCacheAtOrAbove(g): same, const access, only for g >= Instance (throws otherwise, changing nothing) */
-void invalidateAllCacheAtOrAbove(struct StateImpl* self, Stage g)
-__CPROVER_requires(ST_K(self) && STAGE_OK(g) && g > Stage_Empty && ghost_threw == 0)
-__CPROVER_assigns(SYS_ASSIGNS(self), SUB_ASSIGNS(self->g_sub), ghost_threw)
-__CPROVER_ensures(ghost_threw == (g < Stage_Instance))
-ENSURES_SYS_INVALIDATED(self, (g < Stage_Instance ? Stage_Infinity + 1 : g))
-ENSURES_SUB_INVALIDATED(self->g_sub, (g < Stage_Instance ? Stage_Infinity + 1 : g));
+static bool st_same_sys(const struct StateImpl* a, const struct StateImpl* b);
+#define VF_LOOP_HEAD_INVALIDATE_ALL(self, g) \
+  struct PerSubsystemInfo vf_le = *(self)->g_sub;                      /* loop-entry snapshot */ \
+  __CPROVER_assert(LOOPINV_INVALIDATE_ALL(self, g, &vf_le), "invalidateAll.loop_invariant_base"); \
+  { struct PerSubsystemInfo vf_any; vf_any.g_ce = vf_le.g_ce; vf_any.g_dv = vf_le.g_dv; *(self)->g_sub = vf_any; int vf_ni; i = vf_ni; }   /* havoc assigns */ \
+  __CPROVER_assume(LOOPINV_INVALIDATE_ALL(self, g, &vf_le)); \
+  struct StateImpl vf_frame = *(self); int vf_i0 = i;
+#define VF_LOOP_STEP_INVALIDATE_ALL(self, g) \
+  __CPROVER_assert(LOOPINV_INVALIDATE_ALL(self, g, &vf_le), "invalidateAll.loop_invariant_step"); \
+  __CPROVER_assert(st_same_sys(&vf_frame, self), "invalidateAll.loop_frame: the loop body assigns nothing of the system-level view"); \
+  __CPROVER_assert(i == vf_i0 + 1, "invalidateAll.loop_decreases: size - i decreases"); \
+  __CPROVER_assume(0);
